@@ -71,11 +71,16 @@ func VerifC08IndexKinds() {
 	var idx any
 	isFloat := false
 	var fv float64
-	switch nd.Choice(6) {
+	switch nd.Choice(7) {
 	case 0:
 		fv = nd.Float64()
 		nd.Assume(fv == fv && fv > -1e6 && fv < 1e6)
 		idx, isFloat = fv, true
+	case 6:
+		f32 := nd.Float32()
+		nd.Assume(f32 == f32 && f32 > -1e6 && f32 < 1e6)
+		fv = float64(f32)
+		idx, isFloat = f32, true
 	case 1:
 		idx = "1"
 	case 2:
@@ -90,7 +95,21 @@ func VerifC08IndexKinds() {
 	out, err := vRender("[{{ a[i] }}]", Bindings{"a": a, "i": idx})
 	nd.Assert(err == nil, "index-kind-no-error")
 	if isFloat {
-		nd.Assert(out == "[]" || out == "[a]" || out == "[b]" || out == "[c]", "float-index-element-or-nil")
+		// a float index truncates toward zero (as Ruby's Array#[] does), then counts from the end if negative
+		n := int(fv)
+		if n < 0 {
+			n += 3
+		}
+		want := "[]"
+		switch n {
+		case 0:
+			want = "[a]"
+		case 1:
+			want = "[b]"
+		case 2:
+			want = "[c]"
+		}
+		nd.Assert(out == want, "float-index-truncates-toward-zero")
 	} else {
 		nd.Assert(out == "[]", "non-numeric-index-is-nil")
 	}
